@@ -4,6 +4,7 @@ import (
 	"fmt"
 	"go/constant"
 	"go/token"
+	"go/types"
 
 	"golang.org/x/tools/go/ssa"
 )
@@ -20,7 +21,36 @@ type TFrame struct {
 	Fn     *ssa.Function
 	Parent *TFrame
 	Site   *ssa.Call
+	// loop unrolling: a block that is entered again on the same path opens a new
+	// frame of the same activation; Prev is the frame the path came from and Entry
+	// the re-entered block (values that flow into Entry's phis live in Prev)
+	Prev  *TFrame
+	Entry *ssa.BasicBlock
 }
+
+// base: the first frame of an activation's chain.
+func (f *TFrame) base() *TFrame {
+	for f.Prev != nil {
+		f = f.Prev
+	}
+	return f
+}
+
+func (f *TFrame) chainLen() int {
+	n := 0
+	for ; f.Prev != nil; f = f.Prev {
+		n++
+	}
+	return n
+}
+
+// MaxUnroll bounds how often one activation may re-enter a block on one path.
+const MaxUnroll = 48
+
+// TraceConsts lets the enumeration read constant tables: the value at a path of
+// indices / field numbers inside a package-level variable (-1 as last element asks
+// for the length of the slice or array found there).
+type TraceConsts func(g *ssa.Global, path []int) (interface{}, bool)
 
 // TItem is one step of a trace: a call that was not expanded, or a branch.
 type TItem struct {
@@ -45,9 +75,11 @@ type Trace struct {
 	RetFr    *TFrame
 	RetPos   token.Pos
 
-	preds map[*TFrame]map[*ssa.BasicBlock]*ssa.BasicBlock
-	rets  map[*TFrame]ssa.Value
-	child map[*TFrame]map[*ssa.Call]*TFrame
+	preds  map[*TFrame]map[*ssa.BasicBlock]*ssa.BasicBlock
+	rets   map[*TFrame]ssa.Value
+	retFrs map[*TFrame]*TFrame
+	child  map[*TFrame]map[*ssa.Call]*TFrame
+	consts TraceConsts
 }
 
 type traceWalker struct {
@@ -58,8 +90,10 @@ type traceWalker struct {
 	items  []TItem
 	preds  map[*TFrame]map[*ssa.BasicBlock]*ssa.BasicBlock
 	rets   map[*TFrame]ssa.Value
+	retFrs map[*TFrame]*TFrame
 	child  map[*TFrame]map[*ssa.Call]*TFrame
 	root   *TFrame
+	consts TraceConsts
 }
 
 type tcont struct {
@@ -72,7 +106,13 @@ type tcont struct {
 // are expanded (depth = nesting of the call).  It fails on a cycle inside an
 // expanded function or when more than max traces exist (undecided ⇒ caller fails).
 func EnumerateTraces(root *ssa.Function, inline func(callee *ssa.Function, depth int) bool, max int) ([]Trace, error) {
-	w := &traceWalker{inline: inline, max: max, preds: map[*TFrame]map[*ssa.BasicBlock]*ssa.BasicBlock{}, rets: map[*TFrame]ssa.Value{}, child: map[*TFrame]map[*ssa.Call]*TFrame{}}
+	return EnumerateTracesWith(root, inline, max, nil)
+}
+
+// EnumerateTracesWith also unrolls loops whose exit tests are decided by constants of
+// the trace (loop counters over constant tables read through consts).
+func EnumerateTracesWith(root *ssa.Function, inline func(callee *ssa.Function, depth int) bool, max int, consts TraceConsts) ([]Trace, error) {
+	w := &traceWalker{inline: inline, max: max, consts: consts, preds: map[*TFrame]map[*ssa.BasicBlock]*ssa.BasicBlock{}, rets: map[*TFrame]ssa.Value{}, retFrs: map[*TFrame]*TFrame{}, child: map[*TFrame]map[*ssa.Call]*TFrame{}}
 	w.root = &TFrame{Fn: root}
 	if len(root.Blocks) == 0 {
 		return nil, fmt.Errorf("%s has no body", root.Name())
@@ -96,8 +136,22 @@ func (w *traceWalker) enter(fr *TFrame, from, b *ssa.BasicBlock, stack []tcont) 
 	if w.preds[fr] == nil {
 		w.preds[fr] = map[*ssa.BasicBlock]*ssa.BasicBlock{}
 	}
-	if _, seen := w.preds[fr][b]; seen {
-		w.err = fmt.Errorf("control-flow cycle through block %d of %s: path enumeration undecided", b.Index, fr.Fn.Name())
+	seen := false
+	for f := fr; f != nil && !seen; f = f.Prev {
+		_, seen = w.preds[f][b]
+	}
+	if seen {
+		// a loop: go round once more in a new frame of the same activation; whether this
+		// ends is up to the exit tests being decided by constants of the trace
+		if w.consts == nil || fr.chainLen() >= MaxUnroll {
+			w.err = fmt.Errorf("control-flow cycle through block %d of %s: path enumeration undecided", b.Index, fr.Fn.Name())
+			return
+		}
+		nf := &TFrame{Fn: fr.Fn, Parent: fr.Parent, Site: fr.Site, Prev: fr, Entry: b}
+		w.preds[nf] = map[*ssa.BasicBlock]*ssa.BasicBlock{b: from}
+		w.run(nf, b, 0, stack)
+		delete(w.preds, nf)
+		delete(w.child, nf)
 		return
 	}
 	w.preds[fr][b] = from
@@ -117,6 +171,11 @@ func (w *traceWalker) snapshot() Trace {
 	for f, v := range w.rets {
 		t.rets[f] = v
 	}
+	t.retFrs = map[*TFrame]*TFrame{}
+	for f, v := range w.retFrs {
+		t.retFrs[f] = v
+	}
+	t.consts = w.consts
 	for f, m := range w.child {
 		c := map[*ssa.Call]*TFrame{}
 		for k, v := range m {
@@ -149,6 +208,7 @@ func (w *traceWalker) run(fr *TFrame, b *ssa.BasicBlock, start int, stack []tcon
 				delete(w.child[fr], x)
 				delete(w.preds, ch)
 				delete(w.rets, ch)
+				delete(w.retFrs, ch)
 				return
 			}
 			w.items = append(w.items, TItem{Fr: fr, Call: x, Ins: x})
@@ -158,9 +218,13 @@ func (w *traceWalker) run(fr *TFrame, b *ssa.BasicBlock, start int, stack []tcon
 				w.enter(fr, b, b.Succs[0], stack)
 				return
 			}
-			tmp := Trace{preds: w.preds, rets: w.rets, child: w.child}
+			tmp := Trace{preds: w.preds, rets: w.rets, retFrs: w.retFrs, child: w.child, consts: w.consts}
 			cv, cfr := tmp.Resolve(x.Cond, fr)
-			if k, ok := ConstBool(cv); ok {
+			k, ok := ConstBool(cv)
+			if !ok && w.consts != nil {
+				k, ok = tmp.ConstBoolOn(cv, cfr)
+			}
+			if ok {
 				// decided on this trace (a helper returned a constant): not a test
 				if k {
 					w.enter(fr, b, b.Succs[0], stack)
@@ -187,10 +251,11 @@ func (w *traceWalker) run(fr *TFrame, b *ssa.BasicBlock, start int, stack []tcon
 			return // not a return of the root: no trace
 		case *ssa.Return:
 			if len(x.Results) > 0 {
-				w.rets[fr] = x.Results[0]
+				w.rets[fr.base()] = x.Results[0]
 			} else {
-				w.rets[fr] = nil
+				w.rets[fr.base()] = nil
 			}
+			w.retFrs[fr.base()] = fr
 			if len(stack) > 0 {
 				c := stack[len(stack)-1]
 				w.run(c.fr, c.b, c.idx, stack[:len(stack)-1])
@@ -255,7 +320,11 @@ func (t *Trace) Resolve(v ssa.Value, fr *TFrame) (ssa.Value, *TFrame) {
 			}
 			v, fr = fr.Site.Call.Args[idx], fr.Parent
 		case *ssa.Call:
-			ch, ok := t.child[fr][x]
+			var ch *TFrame
+			ok := false
+			for f := fr; f != nil && !ok; f = f.Prev {
+				ch, ok = t.child[f][x]
+			}
 			if !ok {
 				return v, fr
 			}
@@ -264,10 +333,25 @@ func (t *Trace) Resolve(v ssa.Value, fr *TFrame) (ssa.Value, *TFrame) {
 				return v, fr
 			}
 			v, fr = rv, ch
+			if rf, ok := t.retFrs[ch]; ok && rf != nil {
+				fr = rf
+			}
 		case *ssa.Phi:
-			pred, ok := t.preds[fr][x.Block()]
+			var pred *ssa.BasicBlock
+			ok := false
+			owner := fr
+			for f := fr; f != nil && !ok; f = f.Prev {
+				pred, ok = t.preds[f][x.Block()]
+				owner = f
+			}
 			if !ok || pred == nil {
 				return v, fr
+			}
+			// the incoming value of a re-entered block was computed in the previous frame
+			if owner.Entry == x.Block() && owner.Prev != nil {
+				fr = owner.Prev
+			} else {
+				fr = owner
 			}
 			found := false
 			for i, p := range x.Block().Preds {
@@ -290,6 +374,11 @@ func (t *Trace) Resolve(v ssa.Value, fr *TFrame) (ssa.Value, *TFrame) {
 
 // ConstInt folds v on this trace (constants, parameters bound to constants, | & + - of such).
 func (t *Trace) ConstInt(v ssa.Value, fr *TFrame) (int64, bool) {
+	if c, ok := t.constVal(v, fr, 0); ok {
+		if k, isInt := c.(int64); isInt {
+			return k, true
+		}
+	}
 	rv, rfr := t.Resolve(v, fr)
 	if k, ok := ConstInt(rv); ok {
 		return k, true
@@ -317,4 +406,324 @@ func (t *Trace) ConstInt(v ssa.Value, fr *TFrame) (int64, bool) {
 		return t.ConstInt(x.X, rfr)
 	}
 	return 0, false
+}
+
+// ---- constants of a trace (loop counters, entries of constant tables)
+
+// tabRef is a place inside a package-level variable or a local table literal.
+type tabRef struct {
+	g    *ssa.Global
+	al   *ssa.Alloc
+	path []int
+}
+
+func (r tabRef) with(i int) tabRef {
+	return tabRef{g: r.g, al: r.al, path: append(append([]int{}, r.path...), i)}
+}
+
+func isLeafType(t types.Type) bool {
+	switch t.Underlying().(type) {
+	case *types.Basic, *types.Signature:
+		return true
+	}
+	return false
+}
+
+// ConstVal folds v on this trace: int64, string, bool, *ssa.Function, or a reference
+// into a constant table.
+func (t *Trace) ConstVal(v ssa.Value, fr *TFrame) (interface{}, bool) {
+	return t.constVal(v, fr, 0)
+}
+
+func (t *Trace) leafOf(r tabRef, fr *TFrame, depth int) (interface{}, bool) {
+	if r.g != nil {
+		if t.consts == nil {
+			return nil, false
+		}
+		return t.consts(r.g, r.path)
+	}
+	if r.al == nil {
+		return nil, false
+	}
+	// a local table literal: the unique store to this constant place
+	var val ssa.Value
+	n := 0
+	var walk func(addr ssa.Value, path []int, d int) bool
+	walk = func(addr ssa.Value, path []int, d int) bool {
+		if d > 6 || addr.Referrers() == nil {
+			return true
+		}
+		for _, ref := range *addr.Referrers() {
+			switch x := ref.(type) {
+			case *ssa.IndexAddr:
+				if x.X != addr {
+					continue
+				}
+				k, ok := ConstInt(x.Index)
+				if !ok {
+					// a read at a variable index is fine; a write is not a literal any more
+					if storedThrough(x, 0) {
+						return false
+					}
+					continue
+				}
+				if !walk(x, append(append([]int{}, path...), int(k)), d+1) {
+					return false
+				}
+			case *ssa.FieldAddr:
+				if !walk(x, append(append([]int{}, path...), x.Field), d+1) {
+					return false
+				}
+			case *ssa.Slice:
+				if x.X == addr && x.Low == nil && x.High == nil {
+					if !walk(x, path, d+1) {
+						return false
+					}
+				}
+			case *ssa.Store:
+				if x.Addr == addr && samePath(path, r.path) {
+					n++
+					val = x.Val
+				}
+			}
+		}
+		return true
+	}
+	if !walk(r.al, nil, 0) || n != 1 {
+		return nil, false
+	}
+	return t.constVal(val, fr, depth+1)
+}
+
+func storedThrough(addr ssa.Value, depth int) bool {
+	if depth > 4 || addr.Referrers() == nil {
+		return false
+	}
+	for _, ref := range *addr.Referrers() {
+		switch r := ref.(type) {
+		case *ssa.Store:
+			if r.Addr == addr {
+				return true
+			}
+		case *ssa.FieldAddr:
+			if storedThrough(r, depth+1) {
+				return true
+			}
+		case *ssa.IndexAddr:
+			if r.X == addr && storedThrough(r, depth+1) {
+				return true
+			}
+		}
+	}
+	return false
+}
+
+func samePath(a, b []int) bool {
+	if len(a) != len(b) {
+		return false
+	}
+	for i := range a {
+		if a[i] != b[i] {
+			return false
+		}
+	}
+	return true
+}
+
+func (t *Trace) constVal(v ssa.Value, fr *TFrame, depth int) (interface{}, bool) {
+	if v == nil || depth > 24 {
+		return nil, false
+	}
+	rv, rfr := t.Resolve(v, fr)
+	switch x := rv.(type) {
+	case *ssa.Const:
+		if k, ok := ConstInt(x); ok {
+			return k, true
+		}
+		if s, ok := ConstString(x); ok {
+			return s, true
+		}
+		if b, ok := ConstBool(x); ok {
+			return b, true
+		}
+		return nil, false
+	case *ssa.Function:
+		return x, true
+	case *ssa.Global:
+		return tabRef{g: x}, true
+	case *ssa.Alloc:
+		if _, isArr := x.Type().(*types.Pointer).Elem().Underlying().(*types.Array); isArr {
+			return tabRef{al: x}, true
+		}
+		return nil, false
+	case *ssa.ChangeType:
+		return t.constVal(x.X, rfr, depth+1)
+	case *ssa.Convert:
+		return t.constVal(x.X, rfr, depth+1)
+	case *ssa.MakeClosure:
+		if f, ok := x.Fn.(*ssa.Function); ok && len(x.Bindings) <= 1 {
+			return Unwrap(f), true
+		}
+	case *ssa.Slice:
+		if x.Low == nil && x.High == nil {
+			return t.constVal(x.X, rfr, depth+1)
+		}
+	case *ssa.IndexAddr, *ssa.Index:
+		var base, index ssa.Value
+		if ia, ok := x.(*ssa.IndexAddr); ok {
+			base, index = ia.X, ia.Index
+		} else {
+			ix := x.(*ssa.Index)
+			base, index = ix.X, ix.Index
+		}
+		bv, ok := t.constVal(base, rfr, depth+1)
+		if !ok {
+			return nil, false
+		}
+		iv, ok := t.constVal(index, rfr, depth+1)
+		k, isInt := iv.(int64)
+		if !ok || !isInt {
+			return nil, false
+		}
+		switch b := bv.(type) {
+		case tabRef:
+			return b.with(int(k)), true
+		case string:
+			if k >= 0 && int(k) < len(b) {
+				return int64(b[k]), true
+			}
+		}
+		return nil, false
+	case *ssa.FieldAddr:
+		bv, ok := t.constVal(x.X, rfr, depth+1)
+		if r, isRef := bv.(tabRef); ok && isRef {
+			return r.with(x.Field), true
+		}
+		return nil, false
+	case *ssa.Field:
+		bv, ok := t.constVal(x.X, rfr, depth+1)
+		if r, isRef := bv.(tabRef); ok && isRef {
+			return r.with(x.Field), true
+		}
+		return nil, false
+	case *ssa.UnOp:
+		switch x.Op {
+		case token.MUL:
+			bv, ok := t.constVal(x.X, rfr, depth+1)
+			r, isRef := bv.(tabRef)
+			if !ok || !isRef {
+				return nil, false
+			}
+			if isLeafType(x.Type()) {
+				return t.leafOf(r, rfr, depth)
+			}
+			return r, true
+		case token.NOT:
+			if b, ok := t.constVal(x.X, rfr, depth+1); ok {
+				if bb, isB := b.(bool); isB {
+					return !bb, true
+				}
+			}
+		case token.SUB:
+			if b, ok := t.constVal(x.X, rfr, depth+1); ok {
+				if k, isI := b.(int64); isI {
+					return -k, true
+				}
+			}
+		}
+		return nil, false
+	case *ssa.Call:
+		if b, ok := x.Common().Value.(*ssa.Builtin); ok && b.Name() == "len" && len(x.Common().Args) == 1 {
+			av, ok := t.constVal(x.Common().Args[0], rfr, depth+1)
+			if !ok {
+				return nil, false
+			}
+			switch a := av.(type) {
+			case string:
+				return int64(len(a)), true
+			case tabRef:
+				if a.al != nil && len(a.path) == 0 {
+					if arr, ok := a.al.Type().(*types.Pointer).Elem().Underlying().(*types.Array); ok {
+						return arr.Len(), true
+					}
+				}
+				return t.leafOf(a.with(-1), rfr, depth)
+			}
+		}
+		return nil, false
+	case *ssa.BinOp:
+		a, ok1 := t.constVal(x.X, rfr, depth+1)
+		b, ok2 := t.constVal(x.Y, rfr, depth+1)
+		if !ok1 || !ok2 {
+			return nil, false
+		}
+		switch av := a.(type) {
+		case int64:
+			bvv, ok := b.(int64)
+			if !ok {
+				return nil, false
+			}
+			switch x.Op {
+			case token.ADD:
+				return av + bvv, true
+			case token.SUB:
+				return av - bvv, true
+			case token.MUL:
+				return av * bvv, true
+			case token.OR:
+				return av | bvv, true
+			case token.AND:
+				return av & bvv, true
+			case token.XOR:
+				return av ^ bvv, true
+			case token.EQL:
+				return av == bvv, true
+			case token.NEQ:
+				return av != bvv, true
+			case token.LSS:
+				return av < bvv, true
+			case token.LEQ:
+				return av <= bvv, true
+			case token.GTR:
+				return av > bvv, true
+			case token.GEQ:
+				return av >= bvv, true
+			}
+		case string:
+			bvv, ok := b.(string)
+			if !ok {
+				return nil, false
+			}
+			switch x.Op {
+			case token.EQL:
+				return av == bvv, true
+			case token.NEQ:
+				return av != bvv, true
+			case token.ADD:
+				return av + bvv, true
+			}
+		case bool:
+			bvv, ok := b.(bool)
+			if !ok {
+				return nil, false
+			}
+			switch x.Op {
+			case token.EQL:
+				return av == bvv, true
+			case token.NEQ:
+				return av != bvv, true
+			}
+		}
+	}
+	return nil, false
+}
+
+// ConstBoolOn: the condition is decided by constants of the trace.
+func (t *Trace) ConstBoolOn(v ssa.Value, fr *TFrame) (bool, bool) {
+	if c, ok := t.constVal(v, fr, 0); ok {
+		if b, isB := c.(bool); isB {
+			return b, true
+		}
+	}
+	return false, false
 }
